@@ -57,6 +57,8 @@ pub struct PipeCfg {
     pub capacity: usize,
     pub read_menu: bool,
     pub write_menu: bool,
+    /// flush may need a second poll (returns Pending once, self-waking)
+    pub flush_menu: bool,
     pub latency: Duration,
     /// keep payload bytes in the log (off for sweeps with huge payloads)
     pub log_data: bool,
@@ -69,6 +71,7 @@ impl PipeCfg {
             capacity: usize::MAX,
             read_menu: false,
             write_menu: false,
+            flush_menu: false,
             latency: Duration::ZERO,
             log_data: true,
         }
@@ -76,6 +79,10 @@ impl PipeCfg {
     pub fn menus(mut self, read: bool, write: bool) -> Self {
         self.read_menu = read;
         self.write_menu = write;
+        self
+    }
+    pub fn flush_menu(mut self, on: bool) -> Self {
+        self.flush_menu = on;
         self
     }
     pub fn capacity(mut self, c: usize) -> Self {
@@ -92,6 +99,7 @@ struct Inner {
     cfg: PipeCfg,
     site_read: &'static str,
     site_write: &'static str,
+    site_flush: &'static str,
     q: VecDeque<(Instant, Vec<u8>, usize)>, // (ready_at, bytes, consumed offset)
     q_bytes: usize,
     w_closed: bool,
@@ -110,6 +118,8 @@ struct Inner {
     shutdown_mode: ShutdownMode,
     shutdown_seen: bool,
     t0: Instant,
+    flush_pending_left: usize,
+    write_pending_left: usize,
 }
 
 impl Inner {
@@ -143,10 +153,12 @@ pub struct PipeWriter {
 pub fn pipe(cfg: PipeCfg) -> (PipeWriter, PipeReader, Pipe) {
     let site_read = intern(&format!("{}.read", cfg.name));
     let site_write = intern(&format!("{}.write", cfg.name));
+    let site_flush = intern(&format!("{}.flush", cfg.name));
     let p = Pipe(Arc::new(Mutex::new(Inner {
         cfg,
         site_read,
         site_write,
+        site_flush,
         q: VecDeque::new(),
         q_bytes: 0,
         w_closed: false,
@@ -165,6 +177,8 @@ pub fn pipe(cfg: PipeCfg) -> (PipeWriter, PipeReader, Pipe) {
         shutdown_mode: ShutdownMode::Ok,
         shutdown_seen: false,
         t0: Instant::now(),
+        flush_pending_left: 0,
+        write_pending_left: 0,
     })));
     (PipeWriter { p: p.clone() }, PipeReader { p: p.clone(), sleep: None }, p)
 }
@@ -452,10 +466,21 @@ impl AsyncWrite for PipeWriter {
                     opts.push(c);
                 }
             }
+            if g.write_pending_left > 0 {
+                g.write_pending_left -= 1;
+                cx.waker().wake_by_ref();
+                return Poll::Pending;
+            }
             let site = g.site_write;
             drop(g);
-            let k = choose(site, opts.len() + 1);
+            let long = crate::ctl::long_rounds();
+            let k = choose(site, opts.len() + if long > 0 { 2 } else { 1 });
             if k == opts.len() {
+                cx.waker().wake_by_ref();
+                return Poll::Pending;
+            }
+            if k == opts.len() + 1 {
+                self.p.0.lock().unwrap().write_pending_left = long - 1;
                 cx.waker().wake_by_ref();
                 return Poll::Pending;
             }
@@ -478,7 +503,32 @@ impl AsyncWrite for PipeWriter {
         Poll::Ready(Ok(n))
     }
 
-    fn poll_flush(self: Pin<&mut Self>, _cx: &mut Context<'_>) -> Poll<io::Result<()>> {
+    fn poll_flush(self: Pin<&mut Self>, cx: &mut Context<'_>) -> Poll<io::Result<()>> {
+        {
+            let mut g = self.p.0.lock().unwrap();
+            if g.flush_pending_left > 0 {
+                g.flush_pending_left -= 1;
+                cx.waker().wake_by_ref();
+                return Poll::Pending;
+            }
+            if g.cfg.flush_menu && !g.r_dropped {
+                let site = g.site_flush;
+                drop(g);
+                let long = crate::ctl::long_rounds();
+                match choose(site, if long > 0 { 3 } else { 2 }) {
+                    0 => {}
+                    1 => {
+                        cx.waker().wake_by_ref();
+                        return Poll::Pending;
+                    }
+                    _ => {
+                        self.p.0.lock().unwrap().flush_pending_left = long - 1;
+                        cx.waker().wake_by_ref();
+                        return Poll::Pending;
+                    }
+                }
+            }
+        }
         let mut g = self.p.0.lock().unwrap();
         let call = g.flush_calls;
         g.flush_calls += 1;
